@@ -77,6 +77,19 @@ def request_sweep(job):
                 try:
                     c2.request_workflow_status(req)
                     cnt("sweep.accepted")
+                    # a request that is accepted takes effect: the status afterwards is the requested one or its sibling
+                    # (pausing/paused, canceling/canceled, resuming/running - or the completed status a resume of a finished
+                    # workflow leads to). A request that raises nothing and leaves the workflow somewhere else was swallowed.
+                    fam = {"pausing": ("pausing", "paused"), "paused": ("pausing", "paused"),
+                           "canceling": ("canceling", "canceled"), "canceled": ("canceling", "canceled"),
+                           "running": ("running", "resuming", "succeeded", "failed"), "resuming": ("running", "resuming", "succeeded", "failed"),
+                           "failed": ("failed",)}.get(req)
+                    st_after = c2.get_workflow_status()
+                    cnt("sweep.accepted_effect_checked")
+                    if fam is not None and st_after not in fam:
+                        viols.append(dict(prop="C04", kind="request_silently_ignored", subject=req, cause=None,
+                                          detail="request %r in status %r raised nothing but the workflow is %r afterwards"
+                                          % (req, before["status"], st_after), step=run.step))
                     # terminal is final: on a failed / canceled / succeeded workflow a request for any OTHER status is forbidden
                     # and must be refused with an error (succeeded -> failed is the documented exception; asking for the same
                     # status again is not forbidden, and what it does to a task acknowledged late is not judged)
